@@ -274,6 +274,27 @@ pub struct Finish {
     pub exit_code: i32,
 }
 
+/// variant run (FQV_JSON set): no evidence, no replays, no verdict; the violations grouped by key go to a JSON file
+pub fn finish_json(col: &Collector, path: &str) -> Finish {
+    let mut viol = col.violations.lock().unwrap().clone();
+    viol.sort_by(|a, b| a.order.cmp(&b.order).then(a.key.cmp(&b.key)));
+    let mut by_key: BTreeMap<String, (Violation, u64)> = BTreeMap::new();
+    for v in &viol {
+        by_key.entry(v.key.clone()).and_modify(|e| e.1 += 1).or_insert((v.clone(), 1));
+    }
+    let out = json!({
+        "evaluations": col.evals.load(Ordering::Relaxed),
+        "skipped_subject_panics": col.skipped_panics.load(Ordering::Relaxed),
+        "violations_total": col.violation_count.load(Ordering::Relaxed),
+        "machinery_errors": col.machinery_errors.lock().unwrap().clone(),
+        "violations": by_key.iter().map(|(k, (v, c))| json!({"key": k, "what": v.what, "case": v.case, "cases": c})).collect::<Vec<_>>(),
+    });
+    match std::fs::write(path, out.to_string()) {
+        Ok(_) => Finish { exit_code: 0 },
+        Err(_) => Finish { exit_code: 2 },
+    }
+}
+
 pub fn finish(ctx: &Ctx, col: &Collector, wall_s: f64) -> Finish {
     let mut viol = col.violations.lock().unwrap().clone();
     viol.sort_by(|a, b| a.order.cmp(&b.order).then(a.key.cmp(&b.key)));
